@@ -396,8 +396,10 @@ type c01Ledger struct {
 	hbStream uint32
 	hbEnd    bool
 	hbFields []hpack.HeaderField
-	// round-robin: owed[a] = streams that have been eligible (data + both windows)
-	// ever since a's last DATA frame and have not had a DATA frame since.
+	// round-robin (bounded overtaking): owed[a] = streams that have had unsent
+	// data and a positive stream window ever since a's last DATA frame and have
+	// not had a DATA frame since. The connection window is shared by all streams:
+	// it only has to be positive at the moment a writes again.
 	owed [c01MaxStreams]uint8
 	w    *c01World
 }
@@ -427,11 +429,16 @@ func (l *c01Ledger) eligible(ls *c01LS) bool {
 	return l.live(ls) && l.pending(ls) && l.win(ls) > 0 && l.connWin > 0
 }
 
-// prune drops round-robin obligations towards streams that are not eligible now.
+// rrEligible: the stream competes for the (shared) connection window.
+func (l *c01Ledger) rrEligible(ls *c01LS) bool {
+	return l.live(ls) && l.pending(ls) && l.win(ls) > 0
+}
+
+// prune drops round-robin obligations towards streams that do not compete now.
 func (l *c01Ledger) prune() {
 	var el uint8
 	for i, ls := range l.ls {
-		if ls != nil && l.eligible(ls) {
+		if ls != nil && l.rrEligible(ls) {
 			el |= 1 << i
 		}
 	}
@@ -481,6 +488,7 @@ func (l *c01Ledger) onFrame(fr http2.Frame) {
 		if n > 0 && n > l.connWin {
 			l.fail("C01", "data-exceeds-conn-window", "DATA frame of %d bytes on stream %d but the connection window granted by the peer is %d", n, f.stream, l.connWin)
 		}
+		connBefore := l.connWin
 		l.connWin -= n
 		if ls == nil || !ls.opened {
 			l.fail("C02", "data-on-unknown-stream", "%v for a stream the application never opened", f)
@@ -519,14 +527,14 @@ func (l *c01Ledger) onFrame(fr http2.Frame) {
 		ls.frames++
 		// ---- C03 round-robin ----
 		i := c01Idx(ls.id)
-		if l.rrOn && l.owed[i] != 0 {
+		if l.rrOn && l.owed[i] != 0 && connBefore > 0 {
 			var who []uint32
 			for j := range l.ls {
 				if l.owed[i]&(1<<j) != 0 {
 					who = append(who, uint32(2*j+1))
 				}
 			}
-			l.fail("C03", "round-robin", "stream %d got two DATA frames while stream(s) %v had queued data, positive stream window and positive connection window the whole time and got none", ls.id, who)
+			l.fail("C03", "round-robin", "stream %d got two DATA frames (the second with connection window %d) while stream(s) %v had unsent data and a positive stream window the whole time and got none: not round-robin", ls.id, connBefore, who)
 		}
 		for j := range l.owed {
 			if l.owed[j]&(1<<i) != 0 {
@@ -537,7 +545,7 @@ func (l *c01Ledger) onFrame(fr http2.Frame) {
 		l.prune()
 		l.owed[i] = 0
 		for j, o := range l.ls {
-			if j != i && o != nil && l.eligible(o) {
+			if j != i && o != nil && l.rrEligible(o) {
 				l.owed[i] |= 1 << j
 				st.rrObligations.Add(1)
 			}
